@@ -5,11 +5,17 @@
    writes it: dependencies, actor, seq, start_op, time (signed LEB128), message (UTF-8 checked),
    other actors, column metadata (RawColumns::parse with its normal-order, deflate-bit and column
    layout checks), column data, extra bytes — any number of dependencies / actors / columns.
-   PARTIAL: the op columns inside the column data are opaque bytes (verify_ops, decode and the
-   legacy re-encoder are not modelled); bundles are spec-level (the bundle body is a parameter).
+   The op columns inside the column data are modelled in Codec/ColEnc.v (the legacy RLE / delta /
+   boolean / raw codecs) and Store/ChangeOps.v (ChangeOpsColumns::encode, try_from(Columns),
+   ChangeOpsIter, verify_ops); see the section "op columns" at the end of this file: the LEB and
+   string readers and the boolean decoder are proved, the RLE decoder is proved to be able to
+   PANIC (refuted), the general decode-after-encode theorem for op lists is stated
+   ([ops_roundtrip_statement]) but NOT proved: only instances are (…_partial).
+   Bundles are spec-level (the bundle body is a parameter).
    Those parts are checked on the implementation by the harness family `chg`. *)
 From AM Require Import Base.Prelude Base.Leb128 Base.Sleb128 Base.Sleb128Proofs Gen.Consts
-  Store.Chunk Store.ChunkProofs Store.ChangeChunk Exec.ChgExec Store.ChangeChunkProofs.
+  Store.Chunk Store.ChunkProofs Store.ChangeChunk Exec.ChgExec Store.ChangeChunkProofs
+  Codec.ColEnc Codec.ColEncProofs Store.ChangeOps Store.ChangeOpsProofs.
 Local Open Scope N_scope.
 
 (* the reader inverts the writer: every field of every well-formed body comes back *)
@@ -157,3 +163,96 @@ Section Example.
       = Ok (CHUNK_COMPRESSED, [made], []).
   Proof. vm_compute. split; reflexivity. Qed.
 End Example.
+
+(* ================================================================ op columns
+   Codec/ColEnc.v: the legacy column codecs (columnar/encoding/*.rs); Store/ChangeOps.v: the op record, the
+   writer [encode_ops] = ChangeOpsColumns::encode + raw_columns, the reader [decode_ops] =
+   ChangeOpsColumns::try_from(Columns) + ChangeOpsIter, and [parse_change_full] = parse_following_header +
+   verify_ops. *)
+
+(* the value readers of the columns (the `leb128` crate readers, which also accept over-long forms, and the
+   length-prefixed UTF-8 string reader) invert the writers, on every u64 / i64 / string the reader is willing
+   to allocate *)
+Theorem C18_col_u64_roundtrip : forall (n : N) (rest : bytes),
+  n < pow64 -> u64_rd (uleb_enc n ++ rest) = Ok (n, rest).
+Proof. exact u64_rd_roundtrip. Qed.
+
+Theorem C18_col_i64_roundtrip : forall (z : Z) (rest : bytes),
+  in_i64 z -> i64_rd (sleb_enc z ++ rest) = Ok (z, rest).
+Proof. exact i64_rd_roundtrip. Qed.
+
+Theorem C18_col_str_roundtrip : forall (utf8 : bytes -> bool) (s rest : bytes),
+  utf8 s = true -> N.of_nat (length s) <= MAX_ALLOCATION ->
+  str_rd utf8 (str_enc s ++ rest) = Ok (s, rest).
+Proof. exact str_rd_roundtrip. Qed.
+
+(* no bytes make the value readers or the boolean decoders panic *)
+Theorem C18_col_readers_no_panic : forall (utf8 : bytes -> bool) (l : bytes),
+  u64_rd l <> Panic /\ i64_rd l <> Panic /\ str_rd utf8 l <> Panic.
+Proof. intros utf8 l. split; [apply u64_rd_no_panic|split; [apply i64_rd_no_panic|apply str_rd_no_panic]]. Qed.
+
+Theorem C18_bool_decoder_no_panic : forall (orig_empty : bool) (s : bool_st),
+  bool_next s <> Panic /\ maybe_bool_next orig_empty s <> Panic.
+Proof. intros e s. split; [apply bool_next_no_panic|apply maybe_bool_next_no_panic]. Qed.
+
+(* REFUTED: the RLE decoder (hence the delta decoder and every op column but insert / expand) can panic in a
+   build with overflow checks: a literal-run header of i64::MIN ([count.abs()]), a null run of 2^63 items (the
+   count cast [as isize] is isize::MIN and [count -= 1] overflows).  Reproduced on the implementation through
+   Change::from_bytes (known findings, family chg) *)
+Theorem C18_rle_decoder_panics_refuted :
+  rle_next u64_rd (rle_init [128; 128; 128; 128; 128; 128; 128; 128; 128; 127; 1]) = Panic
+  /\ rle_next u64_rd (rle_init [0; 128; 128; 128; 128; 128; 128; 128; 128; 128; 1]) = Panic.
+Proof. exact rle_decoder_panics. Qed.
+
+(* REFUTED: reading the ops of a change can panic although its container parses: [panic_data] is the chunk data
+   of a change whose key-actor column is a literal run of i64::MIN items; [panic_cols] has an object counter above
+   u32::MAX ([OpId::new] unwraps the u32 conversion, in every build) *)
+Theorem C18_ops_decode_panics_refuted :
+  parse_change_full panic_data = Panic /\ is_ok (parse_body panic_data) = true /\ decode_ops panic_cols = Panic.
+Proof. exact ops_decode_panics. Qed.
+
+(* the lazily bounded loop the op reader is written with is plain bounded iteration *)
+Theorem C18_loop_pos_is_iteration : forall (S R : Type) (step : S -> S + R) (p : positive) (s : S),
+  loop_pos step p s = loop_nat step (Pos.to_nat p) s.
+Proof. exact @loop_pos_nat. Qed.
+
+(* PARTIAL.  The statement wanted is [ops_roundtrip_statement]:
+     forall ops, wf_chopsb ops = true -> decode_ops (encode_ops ops) = Ok ops
+   ([wf_chopsb]: op ids within u32, UTF-8 keys / mark names / strings of at most MAX_ALLOCATION bytes, values within
+   u64 / i64, 8-byte floats, unknown type codes 10..15, an action the reader accepts for the value, fewer than 2^63
+   ops and predecessors).  It is NOT proved (the RLE / delta encoder invariants are missing).  Proved: it holds on
+   [ex_ops] (every value type, a mark with a name and expand, an increment, a delete, inserts at the head and after
+   elements, predecessors of three actors, a unicode and an empty key, repeat and literal runs, all fourteen columns)
+   and on 330 ops whose runs cross 64 and 128 items (the expand and mark columns are omitted, all-false / all-null);
+   the empty list writes no column and no column reads as the empty list *)
+Theorem C18_ops_roundtrip_partial :
+  wf_chopsb ex_ops = true /\ decode_ops (encode_ops ex_ops) = Ok ex_ops
+  /\ map fst (encode_ops ex_ops) = [1; 2; 17; 19; 21; 52; 66; 86; 87; 112; 113; 115; 148; 165]
+  /\ encode_ops [] = [] /\ decode_ops [] = Ok [].
+Proof. exact ex_ops_roundtrip. Qed.
+
+Theorem C18_ops_long_runs_roundtrip_partial :
+  let ops := repeat (mkChop (0, 0) (K_Prop [97]) false 1 SV_Null [] false None) 200
+             ++ repeat (mkChop (1, 0) (K_Elem (0, 0)) true 1 (SV_Uint 7) [(1, 0)] false None) 130 in
+  wf_chopsb ops = true /\ decode_ops (encode_ops ops) = Ok ops
+  /\ map fst (encode_ops ops) = [1; 2; 19; 21; 52; 66; 86; 87; 112; 113; 115].
+Proof. exact long_run_roundtrip. Qed.
+
+Example C18_col_roundtrip_nonvacuous :
+  u64_rd (uleb_enc 18446744073709551615 ++ [7]) = Ok (18446744073709551615, [7])
+  /\ u64_rd [128; 0; 9] = Ok (0, [9])                    (* over-long zero: accepted by this reader *)
+  /\ uleb_dec [128; 0; 9] = Err                          (* and rejected by the strict one *)
+  /\ i64_rd (sleb_enc (-9223372036854775808)%Z) = Ok ((-9223372036854775808)%Z, [])
+  /\ str_rd utf8_valid (str_enc [195; 169] ++ [1]) = Ok ([195; 169], [1])
+  /\ str_rd utf8_valid [2; 195; 40] = Err
+  /\ maybe_bool_encode [false; false; false] = [] /\ bool_encode [false; false; true] = [2; 1].
+Proof. vm_compute. repeat split. Qed.
+
+(* the op checkers of the harness on the real change of [C18_roundtrip_nonvacuous] *)
+Example C18_ops_checker_nonvacuous :
+  match parse_change_full real with
+  | Ok (c, ops) => match ops with [] => False | _ => True end /\ cols_eqb (encode_ops ops) (split_cols (cb_cols c) (cb_data c)) = true
+                   /\ wf_chopsb ops = true
+  | _ => False
+  end.
+Proof. vm_compute. repeat split. Qed.
